@@ -827,3 +827,32 @@ Proof.
     - destruct Hs as [<-|[]]. cbn. now left. }
   split; [reflexivity|]. vm_compute; reflexivity.
 Qed.
+
+(* ================= one statement for both fragments ================= *)
+(* on a pipeline of filters the two reference semantics are the same list of lines *)
+Lemma log_rows2_filters {RG : ReGroups} re_match parse_float json_get hash_labels q c d :
+  forallb stage_supported (sel_pipeline q) = true ->
+  log_rows2 re_match parse_float json_get hash_labels q c d = log_rows re_match parse_float q c d.
+Proof.
+  intros Hsup. destruct q as [ms ppl]. cbn [sel_pipeline] in Hsup.
+  rewrite (log_rows2_live re_match parse_float json_get hash_labels c d ms ppl).
+  rewrite (live_filters re_match parse_float json_get hash_labels c d ms ppl Hsup).
+  unfold log_rows. rewrite map_map. apply map_ext. intros x. reflexivity.
+Qed.
+Theorem logql_log_correct_proof :
+  forall (RG : ReGroups) re_match parse_float json_get hash_labels (tie : forall A : Type, list A -> list A),
+    (forall A (l : list A), Permutation (tie A l) l) ->
+    forall q c d, in_fragment q || in_fragment2 q = true -> oracle_ok re_match parse_float q -> ctx_ok c = true -> db_ok c d ->
+    width_guard q = true -> absent_guard re_match q d ->
+    log_correct2 re_match parse_float json_get hash_labels tie q c d.
+Proof.
+  intros RG re_match parse_float json_get hash_labels tie Htie q c d Hfrag Hor Hctx Hdb Hw Hg.
+  destruct (in_fragment q) eqn:E1.
+  - destruct (logql_log_partial_proof RG re_match parse_float json_get hash_labels tie Htie q c d E1 Hor Hctx Hdb Hw Hg)
+      as [sel [rows [outs [H1 [H2 [H3 H4]]]]]].
+    exists sel, rows, outs. split; [exact H1|]. split; [exact H2|]. split; [exact H3|].
+    unfold in_fragment in E1. apply andb_prop in E1. destruct E1 as [_ Hsup].
+    unfold logql_sem2. rewrite (log_rows2_filters re_match parse_float json_get hash_labels q c d Hsup). exact H4.
+  - cbn [orb] in Hfrag.
+    exact (logql_log_partial_parsers_proof RG re_match parse_float json_get hash_labels tie Htie q c d Hfrag Hor Hctx Hdb Hw Hg).
+Qed.
